@@ -191,10 +191,17 @@ def gen(rng, tier, i):
         if fault:
             # the disk fails while the programs are compiled and their binaries written: one call fails (a full disk, an I/O
             # error) or everything from one call on fails and the driver is restarted (a crash in the middle of a save)
-            p.cycle('fsarm %d%s' % (fault[1], ' once' if fault[0] == 'once' else '')); ph['fault'] = list(fault)
+            p.cycle('fsarm %d%s torn:%d' % (fault[1], ' once' if fault[0] == 'once' else '', fault[2])); ph['fault'] = list(fault)
         order = [x for x in ('o', 'm') if x in progs]
         for x in order:
             ph['load_cycles'][x] = p.cycle(send(0, 'do call /g/%s warm\r\n' % x))
+        if fault:
+            p.cycle('fsdisarm')
+            if fault[0] == 'crash':
+                # the driver dies with the disk: nothing else is asked of this life
+                ph.update({'pinfo_cycle': None, 'run_cycle': None, 'twin_cycle': None, 'typed_cycle': None, 'fam_cycle': None})
+                phases.append(ph)
+                return
         ph['pinfo_cycle'] = p.cycle(send(0, 'do ' + ';'.join('pinfo /g/%s' % x for x in progs) + '\r\n'))
         ph['run_cycle'] = p.cycle(send(0, 'do xco r /g/m main\r\n'))
         # the twin: same text, never loaded from a binary, run against freshly loaded helpers
@@ -203,7 +210,6 @@ def gen(rng, tier, i):
         ph['fam_cycle'] = p.cycle(send(0, 'do xco f /g/ia av\r\n')); ph['fam_expect'] = fam_value()
         if zl_len: ph['zl_cycle'] = p.cycle(send(0, 'do dest /g/zl;xco z /g/zl zn\r\n')); ph['zl_expect'] = zl_len
         if lp_path: ph['lp_cycle'] = p.cycle(send(0, 'do dest /%s;xco l /%s v\r\n' % (lp_path, lp_path)))
-        if fault: p.cycle('fsdisarm')
         phases.append(ph)
     # now and then: a program with #pragma save_binary whose string table holds a constant folded from many literals, around
     # the 65535 characters that a saved binary can describe
@@ -219,9 +225,21 @@ def gen(rng, tier, i):
         lp_path = 'g/' + '/'.join(ch * rng.choice((40, 90, 100)) for ch in 'pqrst'[:rng.choice((2, 4, 5))]) + '/lp'
         p.file(lp_path + '.c', '#pragma save_binary\nint v() { return 5; }\n')
     load_phase.need_connect = True
-    load_phase()
-    n = rng.randint(2, 7)
     lives = 1
+    def faulty_phase():
+        fault = (rng.choice(('once', 'crash')) if lives < 4 else 'once', rng.choice((0, 1, 2, 3, 4, 5, 6, 8, 10, 14, 20)),
+                 rng.choice((0, 40, 300, 600, 850, 950, 990, 999)))      # share of the failing write that still reaches the file
+        load_phase(fault)
+        # whatever the failed save left behind is what the next loads find, in this life or the next
+        if fault[0] == 'crash':
+            p.cycle('idle'); p.cycle('restart %d' % rng.randint(2, 20))
+            load_phase.need_connect = True
+        p.cycle('adv %d' % (rng.randint(2, 6) * 1000000))
+        load_phase()
+        return fault[0] == 'crash'
+    if rng.random() < 0.3: lives += faulty_phase()      # the very first compilation: every binary is written in it
+    else: load_phase()
+    n = rng.randint(2, 7)
     for k in range(n):
         p.cycle('adv %d' % (rng.randint(2, 6) * 1000000))
         r = rng.random()
@@ -252,17 +270,8 @@ def gen(rng, tier, i):
         if (restart or rng.random() < 0.35) and lives < 4:
             p.cycle('idle'); p.cycle('restart %d' % rng.randint(2, 20)); lives += 1
             load_phase.need_connect = True
-        fault = None
-        if rng.random() < 0.3:
-            fault = (rng.choice(('once', 'crash')) if lives < 4 else 'once', rng.randint(0, 30))
-        load_phase(fault)
-        if fault:
-            # whatever the failed save left behind is what the next loads find, in this life or the next
-            if fault[0] == 'crash':
-                p.cycle('idle'); p.cycle('restart %d' % rng.randint(2, 20)); lives += 1
-                load_phase.need_connect = True
-            p.cycle('adv %d' % (rng.randint(2, 6) * 1000000))
-            load_phase()
+        if rng.random() < 0.3: lives += faulty_phase()
+        else: load_phase()
     p.idle(1)
     p.meta['phases'] = phases
     return p
@@ -408,7 +417,7 @@ def check(plan, res):
             w = e.rest.split(' ', 2)
             y = w[1].split('/')[-1]
             if len(w) < 3 or w[2] == 'none': continue
-            key = hashlib.sha256(repr([(f, plan_text_of(plan, ph, f)) for f in ph['deps'].get(y, [])] + [inh.get(z) for z in chain(y)]).encode()).hexdigest()
+            key = hashlib.sha256(repr([(f, plan_text_of(plan, ph, f)) for z in chain(y) for f in ph['deps'].get(z, [])] + [inh.get(z) for z in chain(y)]).encode()).hexdigest()
             if used.get(y) == 'source':
                 last_pinfo[y] = (key, w[2])
             elif used.get(y) == 'binary' and y in last_pinfo and last_pinfo[y][0] == key and last_pinfo[y][1] != w[2]:
